@@ -1,5 +1,5 @@
 """Generates /verif/harness/d_node/src/gen/* from /repo's working tree."""
-import os, sys
+import os, re, sys
 sys.path.insert(0, os.path.dirname(__file__))
 from transplant import *
 
@@ -42,21 +42,43 @@ def generate():
                      "// GENERATED from evmlib/src/contract/payment_vault/mod.rs item -- do not edit\n"
                      "use crate::shim::vault::{error, http_provider, interface, PaymentVaultHandler};\n"
                      "use ::ant_evm::EvmNetwork as Network;\nuse evmlib::common::{Address, Amount, QuoteHash};\nuse evmlib::quoting_metrics::QuotingMetrics;\n\n" + v + "\n")
+    # the network layer's resolution of split replies, which sits between the swarm and the client read (C15)
+    hs, mh = extract_items("ant-networking/src/lib.rs", [("fn", "handle_split_record_error")])
+    gt, mg = extract_items("ant-networking/src/transactions.rs", [("fn", "get_transactions_from_record")])
+    meta += [mh, mg]
+    # the only integers this function handles are scratchpad counters, which are the symbolic Counter type here
+    hs = re.sub(r"\bu64\b", "crate::shim::Counter", hs)
+    write_if_changed(f"{DST}/split_items.rs",
+                     "// GENERATED from ant-networking/src/lib.rs and transactions.rs items -- do not edit\n"
+                     "use crate::shim::ant_protocol::storage::{try_deserialize_record, try_serialize_record, RecordHeader, RecordKind, Scratchpad, Transaction};\n"
+                     "use crate::shim::ant_protocol::{NetworkAddress, PrettyPrintRecordKey};\n"
+                     "use ::ant_networking::NetworkError;\nuse ant_registers::SignedRegister;\n"
+                     "use libp2p::kad::{Record, RecordKey};\nuse libp2p::PeerId;\n"
+                     "use std::collections::{HashMap, HashSet};\nuse xor_name::XorName;\n"
+                     "#[allow(unused_imports)]\nuse bytes::Bytes;\n"
+                     "type Result<T, E = NetworkError> = std::result::Result<T, E>;\n\n"
+                     + gt + "\n\npub struct Network;\n\nimpl Network {\n" + hs.replace("    fn handle_split_record_error", "    pub(crate) fn handle_split_record_error") + "\n}\n")
     # client read paths (C15): items of autonomi
     a, m1 = extract_items("autonomi/src/client/data/public.rs", [("fn", "chunk_get")])
     b, m2 = extract_items("autonomi/src/client/vault.rs", [("enum", "VaultError"), ("fn", "get_vault_from_network")])
     c, m3 = extract_items("autonomi/src/client/data/mod.rs", [("enum", "GetError")])
     meta += [m1, m2, m3]
     b_enum, b_fn = b.split("\n\n", 1) if "async fn get_vault_from_network" not in b.split("\n\n", 1)[0] else ("", b)
-    subs = [("                    u64::MAX\n", "                    crate::shim::Counter::max_value()\n", 1)]
-    b_fn = apply_subs(b_fn, subs, "autonomi/src/client/vault.rs")
     text = ("// GENERATED from autonomi/src/client/{data/public.rs,data/mod.rs,vault.rs} items -- do not edit\n"
             "use crate::shim::ant_networking::{GetRecordCfg, GetRecordError, NetworkError};\n"
             "use crate::shim::ant_protocol::storage::{try_deserialize_record, Chunk, ChunkAddress, RecordHeader, RecordKind, Scratchpad, ScratchpadAddress};\n"
             "use crate::shim::ant_protocol::NetworkAddress;\nuse crate::shim::client::{Client, ChunkAddr, VaultSecretKey};\n"
-            "use libp2p::kad::Quorum;\nuse std::collections::HashSet;\nuse xor_name::XorName;\n\n"
+            "use libp2p::kad::Quorum;\nuse std::collections::HashSet;\nuse xor_name::XorName;\n"
+            "// names the source files import as well (helpers extracted by a refactor may mention them)\n"
+            "#[allow(unused_imports)]\nuse bls::{PublicKey, SecretKey};\n#[allow(unused_imports)]\nuse libp2p::kad::{Record, RecordKey};\n#[allow(unused_imports)]\nuse bytes::Bytes;\n\n"
             + c + "\n\n" + b_enum + "\n\nimpl Client {\n" + a + "\n\n" + b_fn + "\n}\n\n#[path = \"../h_client.rs\"]\npub mod harness;\n")
     text = text.replace("crate::self_encryption::Error", "crate::shim::client::SelfEncryptionError")
+    # helpers extracted by a refactor come along (module level); the scratchpad counter is the symbolic Counter type:
+    # a bare `u64::MAX` on a line of its own is the "no version at all" sentinel compared with counters
+    text = text + take_free_helpers()
+    text, n = re.subn(r"(?m)^([ \t]*)u64::MAX[ \t]*$", r"\1crate::shim::Counter::max_value()", text)
+    if n != 1:
+        raise EncodingError(f"autonomi/src/client/vault.rs: expected exactly one bare `u64::MAX` sentinel line, found {n}")
     write_if_changed(f"{DST}/client_items.rs", text)
     return {"transplanted": meta}
 
